@@ -184,6 +184,22 @@ Theorem C08_found_write_failure_refuted :
 Proof. exact nsf_bound_refuted_found. Qed.
 Print Assumptions C08_found_write_failure_refuted.
 
+(* The code as found, server side: the leisure timer of a delayed multicast response released an
+   NSTART slot (coap_retransmit did con_active-- for every node) and flushed the delay queue: with
+   CON 1 in flight and CON 2 held (NSTART = 1) CON 2 goes out.  Repaired (/repo 6ed059d) the event
+   is the flush of an established session ([NsUp]), which does nothing in that state.  Replayed on
+   the real code: corpus/C08/fixed.case (ops M = multicast request, Y = its response goes out). *)
+Theorem C08_found_mcast_refuted :
+  let c := ns_mkcfg 1 4 true false false in
+  let s := ns_run c (ns_init true) [NsSubmit (ns_mkmsg true 1 11); NsSubmit (ns_mkmsg true 2 12)] in
+  map ns_nmid (ns_sq s) = [1] /\ map ns_nmid (ns_dq s) = [2] /\
+  snd (ns_mcast_found c s) = [NsTx (ns_mkmsg true 2 12)] /\
+  map ns_nmid (ns_sq (fst (ns_mcast_found c s))) = [1; 2] /\
+  Z.of_nat (length (ns_sq (fst (ns_mcast_found c s)))) > ns_nstart c /\
+  ns_step (ns_mkcfg 1 4 true true false) s NsUp = (s, []).
+Proof. exact ns_mcast_refuted_found. Qed.
+Print Assumptions C08_found_mcast_refuted.
+
 (* The code as found (pinned commit, ns_fixed = false): the RST branch of coap_dispatch
    decremented con_active before it looked the message id up.  A peer that resets a NON it
    received releases a held CON while another one is still in flight (replayed on the real code:
